@@ -9,7 +9,9 @@ CLAIMS = {
         'interleaving of the stage goroutines and flush points, with and without coalescing. TLC-simulated membership histories (the input '
         'sequences of SerfReplica, with seeded pauses of 0/8/70 ms around the 40/20 ms coalescing quantum) are run on a real Serf node with '
         'snapshot, internal-query filter and both coalescers enabled, and again without coalescing against a stalled application (channel of '
-        'capacity 1 read only when the history is over, so every stage is backed up); the emitted sequence is taken from the INFO lines serf logs synchronously '
+        'capacity 1 read only when the history is over, so every stage is backed up), and the membership handlers themselves are raced '
+        '(yield-instrumented from the working tree: a memberlist notification and an intent about one member delivered by two threads '
+        'under every schedule with at most two preemptions, budgeted); the emitted sequence is taken from the INFO lines serf logs synchronously '
         'inside its handlers, the received one from the application channel, and TLC judges both histories with the same monitor.',
         'Goroutine scheduling of the real pipeline is sampled (the exhaustive part is the model). The final-status clause is judged after the '
         'application channel was silent for ten coalescing periods. No stage of the pipeline drops events towards the application.',
@@ -26,14 +28,22 @@ import vlib
 from families import replica
 
 
-def execute(ctx, binary, nn, scheds, tag, slow=False):
+def execute(ctx, binary, nn, scheds, tag, slow=False, race=False):
     sp = os.path.join(ctx.scratch, "psched-%s.ndjson" % tag)
     tp = os.path.join(ctx.scratch, "ptrace-%s.ndjson" % tag)
     vlib.write_schedules(sp, scheds)
-    rc, out = vlib.run_driver(ctx, binary, ["-in", sp, "-out", tp, "-nn", str(nn), "-pipeline", "-dir", ctx.scratch] + (["-slow"] if slow else []), timeout=3000)
+    rc, out = vlib.run_driver(ctx, binary, ["-in", sp, "-out", tp, "-nn", str(nn), "-pipeline", "-dir", ctx.scratch] + (["-slow"] if slow else []) + (["-race", "-racebudget", "60" if ctx.thorough() else "30"] if race else []), timeout=3000)
     if rc != 0:
         raise vlib.Inconclusive("pipeline driver failed rc=%d:\n%s" % (rc, out[-3000:]))
     return tp
+
+
+def race_prog(lines, tid):
+    """program index recorded in the reset line of trace tid"""
+    for ln in lines:
+        if ln["act"]["a"] == "reset" and ln["act"]["id"] == tid:
+            return ln["act"].get("prog", 0)
+    return 0
 
 
 def run(ctx, replay=None):
@@ -65,10 +75,29 @@ def run(ctx, replay=None):
     if not replay or json.load(open(replay)).get("slow"):
         sub = scheds if replay else scheds[:(200 if ctx.thorough() else 45)]
         modes = ([] if replay else modes) + [("s", True, sub, False)]
+    # (c) handler races: the membership handlers are yield-instrumented and two inputs about ONE member (a memberlist
+    # notification and an intent) are delivered by two threads under every schedule with <= 2 preemptions (budgeted); a
+    # status change and its event must stay one step, whatever the interleaving
+    if not replay or json.load(open(replay)).get("race"):
+        def par(pre, a, b):
+            return pre + [{"a": "par"}, a, b]
+        J, L = {"a": "mljoin", "x": 1}, {"a": "mlleave", "x": 1}
+        def msg(ty, lt, pr=0):
+            return {"a": "msg", "ty": ty, "x": 1, "lt": lt, "prune": pr, "w": 0}
+        races = [par([J], L, msg(2, 3)), par([J], L, msg(2, 3, 1)), par([J], L, msg(1, 3)), par([J, msg(2, 3)], L, msg(1, 5)),
+                 par([J, L], J, msg(2, 3)), par([J, L], J, msg(2, 3, 1)), par([J, L], msg(2, 3), msg(1, 4)),
+                 par([J, L, msg(2, 3)], J, msg(2, 5, 1)), par([], J, msg(2, 3)), par([], J, msg(1, 3))]
+        if replay:
+            races = scheds
+            modes = []
+        modes = modes + [("r", "race", races, False)]
     for tag, slow, ss, coal in modes:
+        race = slow == "race"
+        slow = slow is True
         tcfg = ("SPECIFICATION TraceSpec\nINVARIANT Done\nCONSTANT NM = %d\nCONSTANT MaxEmit = 100000\nCONSTANT Coalescing = %s\n"
                 % (nn - 1, "TRUE" if coal else "FALSE"))
-        tp = execute(ctx, binary, nn, ss, tag, slow=slow)
+        binx = replica.build(ctx, instrumented=True) if race else binary
+        tp = execute(ctx, binx, nn, ss, tag, slow=slow, race=race)
         rep = vlib.validate(ctx, "Trace_EventPipeline", tcfg, tp, timeout=3000)
         traces += rep.traces
         lines_n += rep.lines
@@ -78,11 +107,15 @@ def run(ctx, replay=None):
             if seen.get(key, 0) >= 2:
                 continue
             seen[key] = seen.get(key, 0) + 1
-            t2 = execute(ctx, binary, nn, [ss[tid]], "re%s%d" % (tag, tid), slow=slow)
+            if race:   # a race trace is one schedule of a program: trace ids are consecutive per program
+                ss_i = race_prog(vlib.read_ndjson(tp), tid)
+            else:
+                ss_i = tid
+            t2 = execute(ctx, binx, nn, [ss[ss_i]], "re%s%d" % (tag, tid), slow=slow, race=race)
             rep2 = vlib.validate(ctx, "Trace_EventPipeline", tcfg, t2)
             again = sorted(set(c for m in rep2.monitors for c in m[2] if c in clauses))
             if again:
-                viol.append({"clauses": again, "tags": [], "schedule": ss[tid], "slow": slow})
+                viol.append({"clauses": again, "tags": [], "schedule": ss[ss_i], "slow": slow, "race": race})
             else:
                 ctx.log("report %s on trace %s%d not reproduced; ignored" % (clauses, tag, tid))
     new, known = vlib.classify(ctx.prop, viol)
